@@ -19,6 +19,10 @@ type Fs = PassthroughFs<()>;
 enum Op {
     L,
     F(u64),
+    /// one READDIRPLUS on the directory `d` whose only entry is a hard link to the file; the transport's
+    /// add_entry accepts the entry (true: the client holds one more reference) or reports that it does not
+    /// fit (false: Ok(0), readdirplus gives the reference back with forget_one)
+    R(bool),
 }
 
 struct Sched {
@@ -38,6 +42,7 @@ fn run_one(
     fs: &Arc<Fs>,
     ctl: &Arc<Ctl>,
     ino: u64,
+    dir: (u64, u64),
     names: &[CString],
     r0: usize,
     progs: &[Vec<Op>],
@@ -84,6 +89,17 @@ fn run_one(
                         fs.forget(&ctx, ino, c);
                         res.push(0)
                     }
+                    Op::R(deliver) => {
+                        let mut seen: i64 = 0;
+                        let r = fs.readdirplus(&ctx, dir.0, dir.1, 4096, 0, &mut |_d, e| {
+                            seen = e.inode as i64;
+                            Ok(if deliver { 160 } else { 0 })
+                        });
+                        match r {
+                            Ok(()) => res.push(seen),
+                            Err(e) => res.push(-(e.raw_os_error().unwrap_or(999) as i64)),
+                        }
+                    }
                 }
             }
             let mut st = ctl.m.lock().unwrap();
@@ -112,8 +128,13 @@ fn run_one(
                         return true;
                     }
                     if st.pos[*t] == 2 {
+                        // a readdirplus that gives its reference back takes the write lock right after its
+                        // compare-exchange; a following lookup / readdirplus takes the read lock in its prologue
+                        if matches!(progs[*t].get(st.opi[*t]), Some(Op::R(false))) {
+                            return false;
+                        }
                         let next = progs[*t].get(st.opi[*t] + 1);
-                        return !matches!(next, Some(Op::L));
+                        return !matches!(next, Some(Op::L) | Some(Op::R(_)));
                     }
                     false
                 })
@@ -151,6 +172,8 @@ fn main() {
     std::fs::create_dir_all(&root).unwrap();
     std::fs::write(format!("{}/f", root), b"x").unwrap();
     std::fs::hard_link(format!("{}/f", root), format!("{}/g", root)).unwrap();
+    std::fs::create_dir(format!("{}/d", root)).unwrap();
+    std::fs::hard_link(format!("{}/f", root), format!("{}/d/h", root)).unwrap();
     let names = vec![CString::new("f").unwrap(), CString::new("g").unwrap()];
     let mut cfg = Config::default();
     cfg.root_dir = root.clone();
@@ -161,6 +184,10 @@ fn main() {
     // learn the number of the file (the mapping is kept after forget)
     let ino = fs.lookup(&ctx, 1, &names[0]).expect("lookup").inode;
     fs.forget(&ctx, ino, 1);
+    // the directory listed by the readdirplus operations: looked up and opened once, for the whole run
+    let dino = fs.lookup(&ctx, 1, &CString::new("d").unwrap()).expect("lookup d").inode;
+    let dh = fs.opendir(&ctx, dino, libc::O_RDONLY as u32).expect("opendir d").0.expect("handle");
+    let dir = (dino, dh);
 
     let ctl = Arc::new(Ctl { m: Mutex::new(Sched { turn: None, pos: vec![], opi: vec![] }), cv: Condvar::new() });
     {
@@ -201,7 +228,7 @@ fn main() {
         println!(
             "{{\"r0\":{},\"post\":{},\"rc2\":{},\"getattr2\":{},\"progs\":{:?},\"ino\":{},\"sched\":{:?},\"trace\":{:?},\"results\":{:?},\"dones\":{:?},\"rc\":{},\"getattr\":{},\"ninodes\":{}}}",
             r0, post, rc2, ga2,
-            progs.iter().map(|p| p.iter().map(|o| match o { Op::L => "L".to_string(), Op::F(c) => format!("F{}", c) }).collect::<Vec<_>>()).collect::<Vec<_>>(),
+            progs.iter().map(|p| p.iter().map(|o| match o { Op::L => "L".to_string(), Op::F(c) => format!("F{}", c), Op::R(true) => "R+".to_string(), Op::R(false) => "R-".to_string() }).collect::<Vec<_>>()).collect::<Vec<_>>(),
             ino, out.0, out.1, out.3, out.4, rc, ga, sz.0
         );
     };
@@ -220,12 +247,17 @@ fn main() {
             "thread" => progs.push(
                 w[1..]
                     .iter()
-                    .map(|o| if *o == "L" { Op::L } else { Op::F(o[1..].parse().unwrap()) })
+                    .map(|o| match *o {
+                        "L" => Op::L,
+                        "R+" => Op::R(true),
+                        "R-" => Op::R(false),
+                        _ => Op::F(o[1..].parse().unwrap()),
+                    })
                     .collect(),
             ),
             "sched" => {
                 let prefix: Vec<usize> = w[1..].iter().map(|x| x.parse().unwrap()).collect();
-                let out = run_one(&fs, &ctl, ino, &names, r0, &progs, &prefix);
+                let out = run_one(&fs, &ctl, ino, dir, &names, r0, &progs, &prefix);
                 emit(&fs, r0, post, &progs, &out);
             }
             "stress" => {
@@ -258,6 +290,10 @@ fn main() {
                                         let _ = fs.lookup(&ctx, 1, &name);
                                     }
                                     Op::F(c) => fs.forget(&ctx, ino, *c),
+                                    Op::R(deliver) => {
+                                        let del = *deliver;
+                                        let _ = fs.readdirplus(&ctx, dir.0, dir.1, 4096, 0, &mut |_d, _e| Ok(if del { 160 } else { 0 }));
+                                    }
                                 }
                             }
                             done.fetch_add(1, std::sync::atomic::Ordering::AcqRel);
@@ -286,7 +322,7 @@ fn main() {
                 println!(
                     "{{\"stress\":{},\"r0\":{},\"progs\":{:?},\"ino\":{},\"outcomes\":[{}]}}",
                     iters, r0,
-                    progs.iter().map(|p| p.iter().map(|o| match o { Op::L => "L".to_string(), Op::F(c) => format!("F{}", c) }).collect::<Vec<_>>()).collect::<Vec<_>>(),
+                    progs.iter().map(|p| p.iter().map(|o| match o { Op::L => "L".to_string(), Op::F(c) => format!("F{}", c), Op::R(true) => "R+".to_string(), Op::R(false) => "R-".to_string() }).collect::<Vec<_>>()).collect::<Vec<_>>(),
                     ino, o.join(",")
                 );
             }
@@ -295,7 +331,7 @@ fn main() {
                 let mut prefix: Vec<usize> = vec![];
                 let mut count = 0;
                 loop {
-                    let out = run_one(&fs, &ctl, ino, &names, r0, &progs, &prefix);
+                    let out = run_one(&fs, &ctl, ino, dir, &names, r0, &progs, &prefix);
                     emit(&fs, r0, post, &progs, &out);
                     count += 1;
                     if count >= max {
